@@ -69,7 +69,7 @@ func init() {
 			}
 			gs[authtypes.ModuleName] = cdc.MustMarshalJSON(&auth)
 			gs[banktypes.ModuleName] = cdc.MustMarshalJSON(&bank)
-			return gs
+			return roleGenesis(app, gs, addrs, rng) // the role stores come from the genesis file, in a mix of spellings
 		})
 		app.Commit()
 		height := int64(1)
@@ -99,31 +99,10 @@ func init() {
 		begin()
 		{
 			ctx := dctx()
-			for i, role := range authRoles {
-				app.AdminKeeper.SetAdminAccount(ctx, &admintypes.AdminAccount{AdminType: role, AdminAddress: addrs[i].String()})
-			}
-			app.AdminKeeper.SetAdminAccount(ctx, &admintypes.AdminAccount{AdminType: admintypes.AdminType_CLPDEX, AdminAddress: addrs[6].String()})
-			app.AdminKeeper.SetAdminAccount(ctx, &admintypes.AdminAccount{AdminType: admintypes.AdminType_MARGIN, AdminAddress: addrs[6].String()})
-			app.AdminKeeper.SetAdminAccount(ctx, &admintypes.AdminAccount{AdminType: admintypes.AdminType_ADMIN, AdminAddress: addrs[10].String()})
-			app.OracleKeeper.SetAdminAccount(ctx, addrs[7])
-			app.ClpKeeper.SetClpWhiteList(ctx, []sdk.AccAddress{addrs[8], addrs[9]})
 			if err := app.BankKeeper.MintCoins(ctx, ethtypes.ModuleName, sdk.NewCoins(sdk.NewCoin(ethtypes.CethSymbol, sdk.NewInt(1000000000)))); err != nil {
 				panic(err)
 			}
-			for _, a := range app.AdminKeeper.GetAdminAccounts(ctx) {
-				out.Emit(fmt.Sprintf("cfg admin %s %s", a.AdminType.String(), a.AdminAddress), "ok", "cfg", false)
-			}
-			if oa := app.OracleKeeper.GetAdminAccount(ctx); oa != nil {
-				out.Emit("cfg oracle "+oa.String(), "ok", "cfg", false)
-			} else {
-				out.Emit("cfg oracle -", "ok", "cfg", false)
-			}
-			wl := app.ClpKeeper.GetClpWhiteList(ctx)
-			s := fmt.Sprintf("cfg clp %d", len(wl))
-			for _, a := range wl {
-				s += " " + a.String()
-			}
-			out.Emit(s, "ok", "cfg", false)
+			emitRoleStores(app, ctx, out)
 		}
 		end()
 
@@ -306,6 +285,15 @@ func init() {
 				updatePools = hc
 			}
 		}
+		// an entry imported by genesis in upper case (MARGIN for 11): use, accepted removal under the canonical spelling, use
+		one(updatePools, "direct", 11, 6*11)
+		one(cases[1], "direct", 10, 5+6*11)
+		one(updatePools, "wrapped", 11, 6*11+1)
+		begin()
+		reimportAdmin(app, dctx())
+		out.Emit("reimport", "ok", "reimport", false)
+		end()
+		one(updatePools, "direct", 11, 6*11+2)
 		span := 6 * NACC
 		for _, sp := range []int{0, 5} {
 			acct := 11 + sp/5
